@@ -548,9 +548,11 @@ func ruleC20(c *Ctx) {
 			raw := "(*encoding/base64.Encoding).DecodeString(encoding/base64.StdEncoding, $encodedResponse)#0"
 			c.check(ap(ds[0].Data) == raw, "C20-R3", fname, "first attempt decodes the base64-decoded input", pos, raw, "first attempt decodes "+ap(ds[0].Data))
 			// limit
+			// the bound that is actually in force when this path inflated: the limited reader's N is 5 MiB + 1 (however
+			// the helper is told about it)
 			for _, e := range t.St.events {
-				if e.Kind == EvEnter && shortName(e.Callee) == "maybeDeflate" {
-					c.check(ap(e.Args[1]) == fmt.Sprint(defaultMax), "C20-R3", fname, "default 5 MiB limit", c.P.InstrPos(e.Instr), ap(e.Args[1]), "pre-decoder inflates with limit "+ap(e.Args[1]))
+				if e.Kind == EvCall && e.Callee == "io.LimitReader" && len(e.Args) == 2 {
+					c.check(ap(e.Args[1]) == fmt.Sprint(defaultMax+1), "C20-R3", fname, "default 5 MiB limit", c.P.InstrPos(e.Instr), ap(e.Args[1]), "pre-decoder inflates with a reader limited to "+ap(e.Args[1])+" bytes, want 5 MiB + 1")
 				}
 			}
 		}
